@@ -1,6 +1,8 @@
 package props
 
 import (
+	"pegverif/sqlw"
+	sqlite3 "github.com/mattn/go-sqlite3"
 	"encoding/hex"
 	"fmt"
 	"math/big"
@@ -151,7 +153,11 @@ func c07Pipeline(c *core.Ctx, r *core.Result) {
 					if w == nil {
 						w = MustWorld(era, FundStd)
 					}
-					c07One(c, r, w, era, pair, h0 == 0, ps, key)
+					c07One(c, r, w, era, pair, h0 == 0, ps, key, false)
+					if strings.ContainsAny(ps, "12") {
+						// the same chain with the executing block failing once, late, and retried by the same process
+						c07One(c, r, w, era, pair, h0 == 0, ps, key+"/executing-block-retried", true)
+					}
 				}
 			}
 		}
@@ -198,7 +204,11 @@ func c07Pipeline(c *core.Ctx, r *core.Result) {
 							}
 						})
 					}
-					c07One(c, r, w, era, pair, h0 == 0, ps, key)
+					c07One(c, r, w, era, pair, h0 == 0, ps, key, false)
+					if strings.ContainsAny(ps, "12") {
+						// the same chain with the executing block failing once, late, and retried by the same process
+						c07One(c, r, w, era, pair, h0 == 0, ps, key+"/executing-block-retried", true)
+					}
 				}
 			}
 		}
@@ -208,7 +218,7 @@ func c07Pipeline(c *core.Ctx, r *core.Result) {
 	}
 }
 
-func c07One(c *core.Ctx, r *core.Result, w *World, era drive.Era, pair c07Pair, subGraded bool, pattern, key string) {
+func c07One(c *core.Ctx, r *core.Result, w *World, era drive.Era, pair c07Pair, subGraded bool, pattern, key string, retried bool) {
 	r.Eval()
 	run := w.Fork()
 	defer run.Close()
@@ -239,6 +249,33 @@ func c07One(c *core.Ctx, r *core.Result, w *World, era drive.Era, pair c07Pair, 
 	pre, err := ReadLedger(drive.DBFileOf(w.DBPath))
 	if err != nil {
 		panic("harness: " + err.Error())
+	}
+	if retried {
+		// fail the write of the sync height (the last statement before COMMIT) of the first graded block after the submission, once
+		var firstGraded uint32
+		for h := hSub + 1; h <= b.Chain.Tip(); h++ {
+			if graded[h] {
+				firstGraded = h
+				break
+			}
+		}
+		committed := hSub - 1
+		fired := false
+		run.Open(&sqlw.Hooks{
+			Before: func(op *sqlw.Op) error {
+				if !fired && committed+1 == firstGraded && op.Kind != "prepare" && strings.Contains(op.SQL, "pn_metadata") && !strings.HasPrefix(strings.ToUpper(strings.TrimSpace(op.SQL)), "SELECT") {
+					fired = true
+					r.Count("executing-blocks-failed-once", 1)
+					return sqlite3.Error{Code: sqlite3.ErrBusy}
+				}
+				return nil
+			},
+			After: func(op *sqlw.Op, err error) {
+				if op.Kind == "commit" && err == nil {
+					committed++
+				}
+			},
+		})
 	}
 	out := run.Sync()
 	if !out.Reached {
@@ -286,10 +323,33 @@ func c07One(c *core.Ctx, r *core.Result, w *World, era drive.Era, pair c07Pair, 
 		return
 	}
 	if executed == 0 {
-		// still pending although a graded block followed: admissible only if the amount is unconvertible (average unavailable / overflow): C13/C17 own that
+		// still pending although a graded block followed: admissible only if the amount cannot be converted at that block
+		// (a rate or an average unavailable, overflow): C13/C17 own that case
 		r.Outcome("pending-after-graded-block")
 		if dSrc != 0 || dDst != 0 {
 			r.Violate(core.Violation{Key: key, Signature: "C07:pending-conversion-moved-balances", Desc: fmt.Sprintf("source delta %d, destination delta %d", dSrc, dDst)})
+			return
+		}
+		convertible := false
+		spot0 := v.Rates[first]
+		if first >= era.PIP10 {
+			// convertible under EVERY admissible averaging window: then no reading of the rule leaves it pending
+			convertible = true
+			for _, H := range []uint32{v.LastRatedBefore(first), first} {
+				for _, win := range v.AvgWindows(H, era.AvgPeriod) {
+					sa, da := v.AvgOver(pair.from, win, era.AvgPeriod/2), v.AvgOver(pair.to, win, era.AvgPeriod/2)
+					if sa == 0 || da == 0 {
+						convertible = false
+					} else if _, ok := RefConvert(int64(amount), minU(spot0[pair.from], sa), maxU(spot0[pair.to], da)); !ok {
+						convertible = false
+					}
+				}
+			}
+		} else {
+			_, convertible = RefConvert(int64(amount), spot0[pair.from], spot0[pair.to])
+		}
+		if convertible && pre.Bal(AddrA, pair.from) >= amount {
+			r.Violate(core.Violation{Key: key, Signature: "C07:convertible-conversion-not-executed-at-the-next-graded-block", Desc: fmt.Sprintf("submitted in %d, first later graded block is %d with rates for both assets, the address can afford it, yet the conversion is still pending at the tip %d", hSub, first, b.Chain.Tip())})
 		}
 		return
 	}
